@@ -17,6 +17,7 @@ inductive Ex
   | lt (a b : Ex) | le (a b : Ex) | eq (a b : Ex)
   | not (a : Ex) | and (a b : Ex) | or (a b : Ex)
   | cond (c a b : Ex)
+  | tab (t : Nat) (i : Ex)         -- read-only table number t (yy_ec, yy_accept, yy_base, ...), read at index i
 deriving Repr, Inhabited
 
 inductive St
@@ -35,6 +36,8 @@ inductive St
   | ret (e : Ex)
   | read (dst max : Ex) (res : Nat) -- YY_INPUT(&array[dst], res, max): the reader outside the model puts at most `max`
                                    -- elements at array[dst...] and says in `res` how many
+  | whileB (bound c : Ex) (b : St) -- while (c) b, where more than `bound` rounds are reported as `fuel` (loops over tables,
+                                   -- whose length has nothing to do with the array's)
   | move (dst src n : Ex)          -- memmove(&array[dst], &array[src], n elements): as if through a temporary copy
 deriving Repr, Inhabited
 
@@ -56,6 +59,11 @@ def garbage : Int := 2989
 
 def b2i (b : Bool) : Int := if b then 1 else 0
 
+/-- read-only tables live in the (universally quantified) variables: table `t` has `vars (tabLen t)` elements,
+    element `i` is `vars (tabCell t i)`; reading outside `0 ≤ i < length` is out of bounds -/
+def tabLen (t : Nat) : Nat := 5000 + t
+def tabCell (t i : Nat) : Nat := 10000 + i * 16 + t
+
 /-- value of an expression; `none`: an array read out of bounds -/
 def Ex.eval (s : State) : Ex → Option Int
   | .lit k => some k
@@ -74,6 +82,9 @@ def Ex.eval (s : State) : Ex → Option Int
   | .and a b => do let x ← a.eval s; let y ← b.eval s; pure (b2i (x != 0 && y != 0))
   | .or a b => do let x ← a.eval s; let y ← b.eval s; pure (b2i (x != 0 || y != 0))
   | .cond c a b => do let x ← c.eval s; if x != 0 then a.eval s else b.eval s
+  | .tab t i => do
+      let k ← i.eval s
+      if 0 ≤ k ∧ k < s.vars (tabLen t) then some (s.vars (tabCell t k.toNat)) else none
 
 /-- what the reader called by `read` supplies, as part of the (universally quantified) variables: it
     offers `vars inLen` elements (none if that is not positive), element `i` being `vars (inByte i)` -/
@@ -123,6 +134,10 @@ def St.run : St → State → State × Outcome
     | some v => ({ s with log := s.log ++ [(f, v)] }, .normal)
     | none => (s, .oob)
   | .while_ c b, s => loop (fun s' => c.eval s') (fun s' => b.run s') (s.arr.length + 3) s
+  | .whileB n c b, s =>
+    match n.eval s with
+    | some k => loop (fun s' => c.eval s') (fun s' => b.run s') k.toNat s
+    | none => (s, .oob)
   | .scope b, s =>
     match b.run s with
     | (s', .returned _) => (s', .normal)
